@@ -342,7 +342,11 @@ class FixedNoiseGaussianLikelihood(_GaussianLikelihoodBase):
         res = self.noise_covar(*params, shape=shape, **kwargs)
 
         if self.second_noise_covar is not None:
-            res = res + self.second_noise_covar(*params, shape=shape, **kwargs)
+            # A call-time `noise` replaces the stored fixed noise only; the learned noise is still added (once)
+            second_kwargs = {k: v for k, v in kwargs.items() if k != "noise"}
+            if shape is None and "noise" in kwargs:
+                shape = kwargs["noise"].shape
+            res = res + self.second_noise_covar(*params, shape=shape, **second_kwargs)
         elif isinstance(res, ZeroLinearOperator):
             warnings.warn(
                 "You have passed data through a FixedNoiseGaussianLikelihood that did not match the size "
